@@ -16,29 +16,28 @@ NOT_DECIDED = "scheduler fairness beyond 'the guard is released on every exit' (
 MUTEXGUARD = "std::sync::MutexGuard"
 
 
-def mentions_guard(ty, depth=0):
-    if not ty or depth > 6:
-        return False
-    if ty.get("k") == "adt":
-        if ty.get("path") == MUTEXGUARD:
-            return True
-        return any(mentions_guard(a.get("ty"), depth + 1) for a in ty.get("args", []) if isinstance(a, dict))
-    if ty.get("k") in ("ref", "ptr"):
-        return mentions_guard(ty.get("inner"), depth + 1)
-    if ty.get("k") == "tuple":
-        return any(mentions_guard(t, depth + 1) for t in ty.get("elems", []))
-    return False
-
-
 def lock_holders(tm):
-    """Crate structs with a field whose type is, or contains (Option<..>, tuple, ..), a MutexGuard."""
-    out = []
+    """Public crate structs that transitively contain a MutexGuard: (adt, top-level field name, index, adt facts)."""
+    from . import roles
     facts = tm.facts if hasattr(tm, "facts") else tm
-    for p, a in facts.adts.items():
-        for v in a["variants"]:
-            for i, f in enumerate(v["fields"]):
-                if mentions_guard(f["ty"]):
-                    out.append((p, f["name"], i, a))
+    return [(p, n, i, a) for p, n, i, a, opt in roles.lock_holders(facts)]
+
+
+def holder_optional(tm, adt):
+    from . import roles
+    facts = tm.facts if hasattr(tm, "facts") else tm
+    return {p: opt for p, n, i, a, opt in roles.lock_holders(facts)}.get(adt, False)
+
+
+def guard_leaves(val, out=None):
+    """Opaque leaves inside a (possibly wrapped) guard field value, unwrapping newtypes and Option::Some."""
+    if out is None:
+        out = []
+    if isinstance(val, (Opaque, Int)):
+        out.append(val)
+    elif isinstance(val, Adt):
+        for f in val.fields:
+            guard_leaves(f, out)
     return out
 
 
@@ -97,15 +96,16 @@ def run(ck, models, tier):
                         n += 1
                         gv = val.fields[fidx]
                         fty = a["variants"][0]["fields"][fidx]["ty"]
-                        direct = fty["k"] == "adt" and fty["path"] == MUTEXGUARD
-                        if not direct:
+                        if holder_optional(tm, adt):
+                            held = not (isinstance(gv, Adt) and gv.path == "std::option::Option" and gv.variant == 0) and not isinstance(gv, (Opaque,)) or \
+                                (isinstance(gv, Adt) and gv.vname == "Some")
                             held = isinstance(gv, Adt) and gv.vname == "Some"
                             ck.ob("R4.1", "%s/guard-held-unconditionally" % an, tm.target, held,
                                   "%s.%s has type %s: the struct exists whether or not it owns the guard; on this path the field is %s — "
                                   "a holder without the guard excludes nobody" % (an, fname, fty["s"], "Some(guard)" if held else "not provably Some(guard)"),
                                   "%s:%d" % (st["span"]["file"], st["span"]["line"]))
-                            if held:
-                                gv = gv.fields[0]
+                        leaves = guard_leaves(gv)
+                        gv = leaves[0] if leaves else gv
                         ge = gv.e if isinstance(gv, (Opaque, Int)) else None
                         lv, strs, callees = deps(v, ge) if ge is not None else (set(), set(), set())
                         locks = [c for c in callees if is_std_lock(c)]
@@ -203,25 +203,21 @@ def run(ck, models, tier):
         builders = set()
         for p in roots:
             f = tm.facts.fns[p]
+            from . import roles
             recv = f["inputs"][0] if f["inputs"] else None
             ok = False
             why = "no receiver"
-            if recv and recv["k"] == "adt" and recv["path"] in tm.facts.adts:
-                badt = tm.facts.adts[recv["path"]]
-                for fld in badt["variants"][0]["fields"]:
-                    t = fld["ty"]
-                    if t["k"] == "ref" and t["mut"] and t["inner"]["k"] == "adt" and t["inner"]["path"] == inj:
-                        ok = True
-                        builders.add(recv["path"])
-                        why = "receiver %s holds `&mut %s` in field %s" % (short(recv["path"]), short(inj), fld["name"])
-            elif recv and recv["k"] == "ref" and recv["mut"] and recv["inner"].get("path") == inj:
-                ok, why = True, "receiver is `&mut %s`" % short(inj)
+            if recv is not None:
+                ok = roles.holds_mut_ref_to(tm.facts, recv, inj)
+                why = "receiver %s %s `&mut %s`" % (recv["s"], "(transitively) holds" if ok else "does NOT hold", short(inj))
+                if ok and recv["k"] == "adt" and recv["path"] in tm.facts.adts:
+                    builders.add(recv["path"])
             ck.ob("R4.4", "%s/holds-mut-injector" % short(p), tm.target, ok, "%s: %s" % (short(p), why))
         for badt in sorted(builders):
             for fn, st in aggregate_sites(tm, badt):
                 f = tm.facts.fns.get(fn)
                 recv = f["inputs"][0] if f and f["inputs"] else None
-                ok = bool(recv and recv["k"] == "ref" and recv["mut"] and recv["inner"].get("path") == inj)
+                ok = bool(f) and any(roles.holds_mut_ref_to(tm.facts, x, inj) for x in f["inputs"])
                 ck.ob("R4.4", "%s/built-only-under-mut-injector" % short(badt), tm.target, ok,
                       "%s is constructed in %s whose receiver is %s" % (short(badt), short(fn), recv["s"] if recv else None),
                       "%s:%d" % (st["span"]["file"], st["span"]["line"]))
